@@ -19,10 +19,7 @@ pub fn cases(tier: Tier) -> u64 {
 
 pub fn run_case(env: &Env, ctx: &mut Ctx, idx: u64) {
     let mut rng = Rng::derive(ctx.seed, 1, idx, 0);
-    let mut inp = workload::tree_input(env, &mut rng);
-    if ctx.tier == Tier::Tiny {
-        inp.text = clip_bytes(&inp.text, 160);
-    }
+    let mut inp = if ctx.tier == Tier::Tiny { workload::tiny_input(&mut rng) } else { workload::tree_input(env, &mut rng) };
     let incomplete = rng.chance(1, 3);
     // incomplete mode additionally on truncated / junk-suffixed inputs
     if incomplete {
